@@ -372,8 +372,8 @@ fn check_accepted(d: &Def, unit: &Value, p: &bpaf::OptionParser<Val>, argv: &[To
 
 fn env_clause(d: &Def, unit: &Value, p: &bpaf::OptionParser<Val>, ctx: &mut Ctx) {
     // absent from the line, variable holds an invalid value: same conversion, same failure
-    for (val, frag) in [("x", "invalid digit found in string"), ("", "cannot parse integer from empty string")] {
-        std::env::set_var(ENVV, val);
+    for (val, frag) in [(&b"x"[..], "invalid digit found in string"), (&b""[..], "cannot parse integer from empty string"), (&b"1\xff"[..], "is not a valid utf8")] {
+        std::env::set_var(ENVV, Tok(val.to_vec()).os());
         let argv: Vec<Tok> = if d.ctx == Ctx6::InCommand { toks(&["cmd"]) } else if d.ctx == Ctx6::InAdjacent { toks(&["--grp"]) } else { vec![] };
         ctx.s.evaluations += 1;
         let r = run(p, &argv);
@@ -385,6 +385,167 @@ fn env_clause(d: &Def, unit: &Value, p: &bpaf::OptionParser<Val>, ctx: &mut Ctx)
             Outcome::Stderr(t) if d.ctx == Ctx6::AltBranch || t.contains(frag) => ctx.count("invalid-variable-rejected"),
             _ => ctx.violation(viol("present-but-invalid-fails", d, unit, "invalid-env", &argv, &argv, format!("stderr with {:?}", frag), &r)),
         }
+    }
+}
+
+// ------------------------------------------------------------------------------------------
+// a guard attached to a group of two arguments, the group bare / optional / repeated
+// ------------------------------------------------------------------------------------------
+#[derive(Clone, Debug, Serialize, Deserialize)]
+pub struct GroupDef {
+    pub group_wrap: usize, // 0 bare, 1 optional, 2 many, 3 some
+    pub adjacent: bool,
+    pub neighbour: bool,
+    pub len: usize,
+}
+
+fn group_opts(g: &GroupDef) -> Opts {
+    let min = P::arg(Names::long("min"), Ty::U32);
+    let max = P::arg(Names::long("max"), Ty::U32);
+    let grp = if g.adjacent { P::Adj(vec![P::ReqFlag(Names::long("range")), min, max]) } else { P::Seq(vec![min, max]) };
+    let guarded = P::Guard(grp.bx(), GuardK::Ordered);
+    let w = match g.group_wrap {
+        0 => guarded,
+        1 => guarded.opt(),
+        2 => guarded.many(),
+        _ => guarded.some(),
+    };
+    let mut f = vec![];
+    if g.neighbour {
+        f.push(P::Switch(Names::short('s')));
+    }
+    f.push(w);
+    Opts::new(P::Seq(f))
+}
+
+/// reference: the k-th --min pairs with the k-th --max (adjacent: blocks `--range` + one of each)
+fn group_model(g: &GroupDef, argv: &[Tok]) -> Option<Result<usize, bool>> {
+    // returns Some(Ok(n groups)) accept, Some(Err(guard_failed_is_the_only_problem)) reject, None unspecified
+    let mut mins = vec![];
+    let mut maxs = vec![];
+    let mut s = 0;
+    let mut ranges = 0;
+    let mut blocks: Vec<(Option<u64>, Option<u64>)> = vec![];
+    for t in argv {
+        let x = t.lossy();
+        if x == "-s" {
+            s += 1;
+        } else if x == "--range" {
+            ranges += 1;
+            blocks.push((None, None));
+        } else if let Some(v) = x.strip_prefix("--min=") {
+            let n: u64 = v.parse().ok()?;
+            mins.push(n);
+            if g.adjacent {
+                match blocks.last_mut() {
+                    Some(b) if b.0.is_none() => b.0 = Some(n),
+                    _ => return None,
+                }
+            }
+        } else if let Some(v) = x.strip_prefix("--max=") {
+            let n: u64 = v.parse().ok()?;
+            maxs.push(n);
+            if g.adjacent {
+                match blocks.last_mut() {
+                    Some(b) if b.1.is_none() => b.1 = Some(n),
+                    _ => return None,
+                }
+            }
+        } else {
+            return None;
+        }
+    }
+    if s > 1 || (!g.neighbour && s > 0) {
+        return Some(Err(false));
+    }
+    if g.adjacent {
+        // the switch between members of a block interrupts it: leave those lines to C19
+        if argv.iter().any(|t| t.0 == b"-s") && argv.len() > 1 {
+            let pos = argv.iter().position(|t| t.0 == b"-s").unwrap();
+            let before_range = argv[..pos].iter().rev().take_while(|t| t.0 != b"--range").count();
+            if pos > 0 && before_range < 2 && argv[..pos].iter().any(|t| t.0 == b"--range") {
+                return None;
+            }
+        }
+        if blocks.iter().any(|b| b.0.is_none() || b.1.is_none()) || ranges != blocks.len() {
+            return Some(Err(false));
+        }
+    } else if mins.len() != maxs.len() {
+        return Some(Err(false));
+    }
+    let n = mins.len();
+    let count_ok = match g.group_wrap {
+        0 => n == 1,
+        1 => n <= 1,
+        2 => true,
+        _ => n >= 1,
+    };
+    if !count_ok {
+        return Some(Err(false));
+    }
+    let ordered = if g.adjacent { blocks.iter().all(|b| b.0 <= b.1) } else { mins.iter().zip(maxs.iter()).all(|(a, b)| a <= b) };
+    if ordered {
+        Some(Ok(n))
+    } else {
+        Some(Err(true))
+    }
+}
+
+fn run_group(g: &GroupDef, unit: &Value, only: Option<&[Tok]>, ctx: &mut Ctx) {
+    let p = match build_checked(&group_opts(g)) {
+        Ok(p) => p,
+        Err(_) => return,
+    };
+    let mut alpha = toks(&["--min=1", "--min=5", "--max=2", "--max=3"]);
+    if g.adjacent {
+        alpha.push(Tok::s("--range"));
+    }
+    if g.neighbour {
+        alpha.push(Tok::s("-s"));
+    }
+    let mut judge = |argv: &[Tok], ctx: &mut Ctx| {
+        ctx.s.evaluations += 1;
+        ctx.s.states += 1;
+        let m = match group_model(g, argv) {
+            Some(m) => m,
+            None => {
+                ctx.s.skipped += 1;
+                return;
+            }
+        };
+        let r = run(&p, argv);
+        let ok = match (&m, &r) {
+            (Ok(_), Outcome::Value(_)) => true,
+            (Err(false), Outcome::Stderr(t)) => !t.trim().is_empty(),
+            // a present group that fails its guard: stderr carrying the guard's message
+            (Err(true), Outcome::Stderr(t)) => t.contains(GUARD_MSG_ORDERED),
+            _ => false,
+        };
+        if ok {
+            ctx.count(match m {
+                Ok(_) => "group-accepted",
+                Err(true) => "group-guard-rejected-with-message",
+                Err(false) => "group-rejected",
+            });
+            if matches!(m, Err(true)) {
+                ctx.s.nontrivial += 1;
+            }
+        } else {
+            let mut sig = BTreeMap::new();
+            sig.insert("family".to_string(), "guarded-group".to_string());
+            sig.insert("wrap".to_string(), g.group_wrap.to_string());
+            sig.insert("adjacent".to_string(), g.adjacent.to_string());
+            sig.insert("model".to_string(), format!("{:?}", m));
+            sig.insert("observed".to_string(), r.class().to_string());
+            ctx.violation(Violation { property: "C06".into(), rule: if matches!(m, Err(true)) { "present-but-invalid-fails" } else { "guarded-group-conforms" }.into(), sig, unit: unit.clone(), case: json!({"argv": argv, "group": true}), expected: format!("{:?} (Err(true) = stderr with {:?})", m, GUARD_MSG_ORDERED), observed: r.brief(), size: argv.len() * 1000 });
+        }
+    };
+    match only {
+        Some(a) => judge(a, ctx),
+        None => tree(&alpha, g.len, &mut |argv| {
+            judge(argv, ctx);
+            true
+        }),
     }
 }
 
@@ -413,9 +574,22 @@ impl Check for C06 {
                 }
             }
         }
-        out.into_iter().map(|d| serde_json::to_value(d).unwrap()).collect()
+        let mut out: Vec<Value> = out.into_iter().map(|d| serde_json::to_value(d).unwrap()).collect();
+        for group_wrap in 0..4 {
+            for adjacent in [false, true] {
+                for neighbour in [false, true] {
+                    out.push(json!({"group": GroupDef { group_wrap, adjacent, neighbour, len: tier.pick(if adjacent { 6 } else { 5 }, if adjacent { 7 } else { 6 }) }}));
+                }
+            }
+        }
+        out
     }
     fn run_unit(&self, unit: &Value, ctx: &mut Ctx) {
+        if let Some(g) = unit.get("group") {
+            let g: GroupDef = serde_json::from_value(g.clone()).unwrap();
+            run_group(&g, unit, None, ctx);
+            return;
+        }
         let d: Def = serde_json::from_value(unit.clone()).unwrap();
         std::env::remove_var(ENVV);
         let p = match build_checked(&to_opts(&d)) {
@@ -443,6 +617,12 @@ impl Check for C06 {
         }
     }
     fn replay(&self, unit: &Value, case: &Value, ctx: &mut Ctx) {
+        if let Some(g) = unit.get("group") {
+            let g: GroupDef = serde_json::from_value(g.clone()).unwrap();
+            let argv: Vec<Tok> = serde_json::from_value(case["argv"].clone()).unwrap_or_default();
+            run_group(&g, unit, Some(&argv), ctx);
+            return;
+        }
         let d: Def = serde_json::from_value(unit.clone()).unwrap();
         std::env::remove_var(ENVV);
         let base: Vec<Tok> = serde_json::from_value(case["base"].clone()).unwrap_or_default();
@@ -457,7 +637,7 @@ impl Check for C06 {
         }
     }
     fn rule(&self) -> String {
-        "definitions = typed u32 primitive {argument via FromStr, argument via .parse(f), guarded argument, positional, env-backed argument} under EVERY type-correct wrapper stack of depth <= 3 from {guard, hide, fallback, fallback_with ok/err, last, optional, many, some, collect (with and without catch), guard on the list, fallback on the list} in 4 contexts {top-level field, branch of an alternative, inside a sub-command, member of an adjacent group} beside 0..2 neutral items; accepted vectors are discovered on the whole token tree; for each, every typed value occurrence is replaced by each of {x, empty, -1 attached, 99999999999, \\xff, guard-violating 11} -> must be an stderr failure whose text carries the FromStr / parse / guard message (text not demanded inside an alternative, nothing demanded under catch); the item removed -> a value iff the stack defaults when absent, else an stderr failure; env-backed: invalid variable with the item absent from the line fails the same way; evaluation = one run; non-trivial = accepted vector containing a typed value".into()
+        "definitions = typed u32 primitive {argument via FromStr, argument via .parse(f), guarded argument, positional, env-backed argument} under EVERY type-correct wrapper stack of depth <= 3 from {guard, hide, fallback, fallback_with ok/err, last, optional, many, some, collect (with and without catch), guard on the list, fallback on the list} in 4 contexts {top-level field, branch of an alternative, inside a sub-command, member of an adjacent group} beside 0..2 neutral items; accepted vectors are discovered on the whole token tree; for each, every typed value occurrence is replaced by each of {x, empty, -1 attached, 99999999999, \\xff, guard-violating 11} -> must be an stderr failure whose text carries the FromStr / parse / guard message (text not demanded inside an alternative, nothing demanded under catch); the item removed -> a value iff the stack defaults when absent, else an stderr failure; env-backed: invalid (unparsable, empty, non-UTF-8) variable with the item absent from the line fails the same way; plus a guard attached to a GROUP of two arguments (plain and adjacent), the group bare / optional / many / some, judged on every vector of length <= 5-6 by a pairing model (k-th --min with k-th --max; a present pair violating the guard must fail with the guard's message, whichever repetition it is); evaluation = one run; non-trivial = accepted vector containing a typed value".into()
     }
     fn bounds(&self, tier: Tier) -> Value {
         json!({"stack_depth": 3, "base_vector_length": tier.pick(3, 4)})
